@@ -90,8 +90,17 @@ TTyped ==
                 /\ Len(e.iter.items) = fb - 1
                 /\ \A i \in 1..(fb - 1) : e.iter.items[i] = g[i]
 
+\* the same agreement on a reader that is not fresh (after seek(k)): whatever record the two
+\* reads start at (that is C15's subject), the typed read and generic-then-convert agree
+TTypedSeek ==
+    /\ Ev("typedseek") /\ UNCHANGED << nxt, done, seen, cur >>
+    /\ LET e == Rec[l]
+       IN  /\ e.typed.ok = e.conv.ok /\ e.typed.items = e.conv.items
+           /\ e.typed.err = e.conv.err
+           /\ e.typed.requested = e.conv.requested /\ e.typed.actual = e.conv.actual
+
 Init == l = 2 /\ nxt = I32Min /\ done = FALSE /\ seen = {} /\ cur = [types |-> << >>]
-Next == TReset \/ TType \/ TRun \/ TRunsEnd \/ TRoute \/ TRouteBulk \/ TStatic \/ TTypedFile \/ TTyped
+Next == TReset \/ TType \/ TRun \/ TRunsEnd \/ TRoute \/ TRouteBulk \/ TStatic \/ TTypedFile \/ TTyped \/ TTypedSeek
 Spec == Init /\ [][Next]_vars
 
 Accepted ==
